@@ -189,6 +189,9 @@ class HostModel:
                 self.cur[src]['shared'] = True
                 spec['shared'] = True
             self._add(op['dst'], spec)
+        elif kind == 'resolve':
+            if op['cfg'] not in self.cur:
+                raise InvalidHistory('unknown config')
         elif kind == 'rebuild_cfg':
             cid = op['cfg']
             if cid not in self.cur or self.cur[cid].get('holder') != 'Config':
